@@ -301,6 +301,12 @@ func c08Universe() []*ct {
 		// non-empty shapes whose hash is 0, the hash of the empty list, map and struct
 		sh("list", nu(0)), sh("pair", nu(0), nu(0)), sh("map", nu(0), nu(1<<28)), sh("struct", nu(0), nu(1<<27)),
 		sh("list", sh("map", nm("/a"), nu(1))), sh("list", sh("struct", nm("/a"), nu(1))), sh("map", nm("/a"), sh("list", nu(1))),
+		// equal first components, second components that differ only in kind (equal hashes): the comparison must reach them
+		sh("pair", nu(1), nu(1)), sh("pair", nu(1), &ct{kind: "time", n: 1}), sh("pair", nu(1), &ct{kind: "dur", n: 1}),
+		sh("pair", nu(1), st("a")), sh("pair", nu(1), &ct{kind: "bytes", s: "a"}), sh("pair", nm("/a"), nm("/a/b")),
+		sh("list", &ct{kind: "time", n: 1}), sh("list", &ct{kind: "dur", n: 1}), sh("list", nu(1), &ct{kind: "time", n: 2}),
+		sh("map", nm("/a"), &ct{kind: "time", n: 1}), sh("map", nm("/a"), &ct{kind: "dur", n: 1}), sh("map", &ct{kind: "time", n: 1}, nu(2)),
+		sh("struct", nm("/a"), &ct{kind: "time", n: 1}), sh("struct", nm("/a"), st("a")), sh("struct", nm("/a"), &ct{kind: "bytes", s: "a"}),
 	}
 	return u
 }
@@ -371,12 +377,22 @@ func checkC08(c *core.Ctx) {
 func c08Order(c *core.Ctx, k *c08Kit, mode string) {
 	nm := func(s string) *ct { return &ct{kind: "name", s: s} }
 	nu := func(n int64) *ct { return &ct{kind: "num", n: n} }
-	keys := []*ct{nm("/a"), nm("/b"), nm("/c")}
+	sh := func(kind string, kids ...*ct) *ct { return &ct{kind: kind, kids: kids} }
+	// key sets: plain names; keys that agree in hash AND in the Symbol field (numbers, times and durations of one
+	// value; a name, a string and a byte string of one text; pairs whose hashes coincide) - only the printed form
+	// tells those apart, so the canonical order must be decided by it
+	keySets := [][]*ct{
+		{nm("/a"), nm("/b"), nm("/c")},
+		{nu(1), {kind: "time", n: 1}, {kind: "dur", n: 1}},
+		{nm("/a"), {kind: "str", s: "/a"}, {kind: "bytes", s: "/a"}},
+		{sh("pair", nu(0), nu(5)), sh("pair", nu(0), nu(-5)), sh("pair", nu(0), &ct{kind: "time", n: 5})},
+	}
 	perms := [][]int{{0, 1, 2}, {0, 2, 1}, {1, 0, 2}, {1, 2, 0}, {2, 0, 1}, {2, 1, 0}}
 	for _, kind := range []string{"map", "struct"} {
 		bad := ""
 		var ref *ordabs.Rec
 		n := 0
+		for _, keys := range keySets {
 		for _, size := range []int{2, 3} {
 			ref = nil
 			for _, p := range perms {
@@ -404,6 +420,7 @@ func c08Order(c *core.Ctx, k *c08Kit, mode string) {
 					bad = fmt.Sprintf("%s mode: the same %d entries supplied in two orders give %s and %s (Equals=%v)", mode, size, sr, sv, eq)
 				}
 			}
+		}
 		}
 		name := map[string]string{"map": "Map", "struct": "Struct"}[kind]
 		c.Check(bad == "", rC08Order, "ast."+name+":"+mode, k.fn[name].Decl.Pos(), fmt.Sprintf("%d supply orders give one constant", n), bad)
